@@ -303,6 +303,23 @@ def run(tier="quick", seed=1, work=None, replay=None, focus="C01", ncases=None):
                 link_group_failure_twin(rep, contents, ci, seed, work, rng)
             if focus == "C07" and ci % 2 == 0:
                 src, dst, flags, cfg, env, excl, cls = gen_c07_case(rng); rep.tag("c07." + cls)
+            elif focus in ("C01", "C06", "C16") and ci % 25 == 11:
+                # targeted: excluded directories next to siblings whose names merely START with the directory's name (byte-wise
+                # prefix, no separator): the siblings and everything below them stay selected whatever the walk order is
+                # (seeded changes C16, C01c, C16c)
+                flags, cfg, opts, env, excl = gen_flags(rng, "plain", caps)
+                flags = [x for x in flags]; excl = []
+                while "--exclude" in flags: i_ = flags.index("--exclude"); del flags[i_:i_ + 2]
+                for k_ in ("min", "max"): 
+                    fl_ = "--%s-size" % k_
+                    if fl_ in flags: i_ = flags.index(fl_); del flags[i_:i_ + 2]; cfg.pop(k_, None)
+                src = {"keep.txt": F(b"keep")}
+                for d_ in ("aa", "bb", "cc"):
+                    excl.append(d_); flags += ["--exclude", d_]
+                    src[d_] = D(); src[d_ + "/inside.txt"] = F(b"excluded with its directory")
+                    src[d_ + ".txt"] = F(rng.bytes(rng.range(1, 40))); src[d_ + "-old"] = F(rng.bytes(rng.range(1, 40)))
+                    src[d_ + "2"] = D(); src[d_ + "2/f.bin"] = F(rng.bytes(rng.range(1, 40))); src[d_ + "X"] = F(b"x")
+                dst = gen_dst(rng, src, opts); rep.tag("targeted.prefix-siblings-of-excluded-dirs")
             else:
                 flags, cfg, opts, env, excl = gen_flags(rng, focus, caps)
                 src = gen_src(rng, opts); dst = gen_dst(rng, src, opts)
